@@ -17,9 +17,13 @@ use crate::subj;
 pub struct C15;
 
 fn fraction(text: &str, fs: &cteepbd::Factors, k: f32, out: &mut Out) -> Result<Result<f64, String>, String> {
+    fraction_lm(text, fs, k, false, out)
+}
+
+fn fraction_lm(text: &str, fs: &cteepbd::Factors, k: f32, lm: bool, out: &mut Out) -> Result<Result<f64, String>, String> {
     let c = subj::parse(text).map_err(|e| format!("parse: {e}"))?;
     out.evals += 1;
-    let ep = subj::eval(&c, fs, k, 1.0, false).map_err(|e| format!("eval: {e}"))?;
+    let ep = subj::eval(&c, fs, k, 1.0, lm).map_err(|e| format!("eval: {e}"))?;
     let direct = cte::fraccion_renovable_acs_nrb(&ep).map(|x| x as f64).map_err(|e| format!("{e}"));
     // the value / error reported through misc must agree with the direct call
     let ep2 = cte::incorpora_demanda_renovable_acs_nrb(ep);
@@ -73,6 +77,10 @@ fn ratio(carrier: &str, red: (f64, f64)) -> f64 {
 
 /// closed form in the generator's parameter space
 fn closed_form(p: &BTreeMap<String, String>, red: (f64, f64)) -> Expect {
+    closed_form_lm(p, red, false)
+}
+
+fn closed_form_lm(p: &BTreeMap<String, String>, red: (f64, f64), lm: bool) -> Expect {
     let d = vecp(p.get("D").map(|s| s.as_str()).unwrap_or(""));
     let demand_kind = p.get("demand").map(|s| s.as_str()).unwrap_or("given");
     let mix = p.get("mix").map(|s| s.as_str()).unwrap_or("");
@@ -99,6 +107,9 @@ fn closed_form(p: &BTreeMap<String, String>, red: (f64, f64)) -> Expect {
         "red1_50+gas" => 0.5 * dsum * ratio("RED1", red),
         "red1" => dsum * ratio("RED1", red),
         "red2" => dsum * ratio("RED2", red),
+        "red1_40+solar60" => 0.6 * dsum + 0.4 * dsum * ratio("RED1", red),
+        "red2_50+hp4_50" => 0.5 * dsum * 0.75 + 0.5 * dsum * ratio("RED2", red),
+        "red1_25+red2_25+solar50" => 0.5 * dsum + 0.25 * dsum * ratio("RED1", red) + 0.25 * dsum * ratio("RED2", red),
         "biomass" => dsum * ratio("BIOMASA", red),
         "biomass+solar50" => 0.5 * dsum + 0.5 * dsum * ratio("BIOMASA", red),
         "biomass+dens_out" => 0.5 * dsum * ratio("BIOMASA", red) + 0.5 * dsum * ratio("BIOMASADENSIFICADA", red),
@@ -111,6 +122,7 @@ fn closed_form(p: &BTreeMap<String, String>, red: (f64, f64)) -> Expect {
         "joule" => d.clone(),
         "hp25" => d.iter().map(|x| x / 2.5).collect(),
         "hp4" => d.iter().map(|x| x / 4.0).collect(),
+        "red2_50+hp4_50" => d.iter().map(|x| x / 8.0).collect(),
         _ => vec![0.0; n],
     };
     let aux = vecp(p.get("auxv").map(|s| s.as_str()).unwrap_or(""));
@@ -125,7 +137,14 @@ fn closed_form(p: &BTreeMap<String, String>, red: (f64, f64)) -> Expect {
     for i in 0..n {
         let utot = e_acs[i] + g(&aux, i) + g(&ilu, i);
         if utot > 0.0 {
-            el += g(&pv, i).min(utot) * e_acs[i] / utot;
+            // load matching factor (32) with x = production / use of the step
+            let f = if lm && g(&pv, i) > 0.0 {
+                let x = g(&pv, i) / utot;
+                (x + 1.0 / x - 1.0) / (x + 1.0 / x)
+            } else {
+                1.0
+            };
+            el += f * g(&pv, i).min(utot) * e_acs[i] / utot;
         }
     }
     Expect::Value((thermal + el) / dsum)
@@ -172,6 +191,52 @@ impl StateCheck for C15 {
             if let Ok(g) = &got {
                 if !(*g >= -1e-4 && *g <= 1.0 + 1e-4) && !matches!(exp, Expect::Error) {
                     out.viol("in_unit_interval", &feats, &cfg, format!("{g}"), "[0,1]");
+                }
+            }
+            // the same closed form (with the matching factor on the PV share) when the balance uses load matching
+            if let (Ok(Ok(g2)), Expect::Value(e2)) = (fraction_lm(text, &fs, 0.0, true, out), closed_form_lm(&p, red, true)) {
+                out.compared += 1;
+                out.regime("load_matching");
+                if (g2 - e2).abs() > 1e-3 {
+                    out.viol("equals_closed_form", &[mix.as_str(), "load_matching"], format!("{cfg} load_matching=true"), format!("{g2}"), format!("{e2}"));
+                }
+            }
+            // repeated evaluation until the DHW carrier loop has been executed in all its orders
+            {
+                let mut orders: std::collections::BTreeSet<Vec<String>> = std::collections::BTreeSet::new();
+                let mut nkeys = 0usize;
+                for _ in 0..24 {
+                    let _ = cteepbd::verif_hooks::take();
+                    let r = fraction(text, &fs, 0.0, out);
+                    let log = cteepbd::verif_hooks::take();
+                    let o: Vec<String> = log.iter().filter(|(s, _)| *s == "cte::Q_nrb_non_biomass_an::carrier").map(|(_, i)| i.clone()).collect();
+                    // the function is called twice per `fraction` (direct and through misc): keep the first traversal
+                    let mut first: Vec<String> = vec![];
+                    for x in o {
+                        if first.contains(&x) {
+                            break;
+                        }
+                        first.push(x);
+                    }
+                    nkeys = first.len();
+                    if let Ok(g2) = &r {
+                        let same = match (&got, g2) {
+                            (Ok(x), Ok(y)) => (x - y).abs() <= 1e-4,
+                            (Err(_), Err(_)) => true,
+                            _ => false,
+                        };
+                        if !same {
+                            out.viol("unchanged_by_repeating", &[mix.as_str()], format!("{cfg} carrier order {first:?}"), format!("{g2:?}"), format!("{got:?}"));
+                        }
+                    }
+                    orders.insert(first);
+                    let need = (1..=nkeys.min(3)).product::<usize>().max(1);
+                    if nkeys < 2 || orders.len() >= need {
+                        break;
+                    }
+                }
+                if nkeys >= 2 {
+                    out.regime("dhw_carrier_orders_closed");
                 }
             }
             // invariance: k_exp, scaling, bystanders that are non-EPB or non-electric
@@ -264,6 +329,9 @@ fn slots(d: &[f64], demand_kind: &'static str) -> Vec<Vec<Letter>> {
         m("red1_50+gas", vec![u(Some(1), "ACS", "RED1", &cv(&sc(0.5))), u(Some(2), "ACS", "GASNATURAL", &cv(&sc(0.5)))]),
         m("red1", vec![u(Some(1), "ACS", "RED1", &cv(d))]),
         m("red2", vec![u(Some(1), "ACS", "RED2", &cv(d))]),
+        m("red1_40+solar60", vec![u(Some(1), "ACS", "TERMOSOLAR", &cv(&sc(0.6))), u(Some(2), "ACS", "RED1", &cv(&sc(0.4)))]),
+        m("red2_50+hp4_50", vec![u(Some(1), "ACS", "ELECTRICIDAD", &cv(&sc(0.125))), u(Some(1), "ACS", "EAMBIENTE", &cv(&sc(0.375))), u(Some(2), "ACS", "RED2", &cv(&sc(0.5)))]),
+        m("red1_25+red2_25+solar50", vec![u(Some(1), "ACS", "TERMOSOLAR", &cv(&sc(0.5))), u(Some(2), "ACS", "RED1", &cv(&sc(0.25))), u(Some(3), "ACS", "RED2", &cv(&sc(0.25)))]),
         m("biomass", vec![u(Some(1), "ACS", "BIOMASA", &cv(&sc(1.25)))]),
         m("dens", vec![u(Some(1), "ACS", "BIOMASADENSIFICADA", &cv(&sc(1.25)))]),
         m("biomass+solar50", vec![u(Some(1), "ACS", "TERMOSOLAR", &cv(&sc(0.5))), u(Some(2), "ACS", "BIOMASA", &cv(&sc(0.625)))]),
@@ -339,9 +407,9 @@ pub fn run(ctx: &Ctx) -> i32 {
                 "closed form computed from the generator's parameters, 1e-3",
                 "with auxiliaries that are not proportional to the DHW electricity the property does not fix the reading of the PV share: only range / invariance / error clauses apply",
                 "neither demand nor supply declared: documented as 0; error expected only when DHW is supplied",
-                "load matching off",
+                "closed forms are evaluated without and with load matching (the matching factor enters the PV share only)", "every state is re-evaluated under successive hash keys until the DHW carrier loop (hooked) has run in all orders of its <= 3 keys",
             ]),
-            required_regimes: strs(&["value:joule", "value:hp25", "value:solar50+gas", "value:red1", "value:biomass", "value:biomass+dens_out", "value:gas+biomass_out_heats", "error:none", "error:zero", "error:biomass+gas_noout", "error:biomass+joule_noout", "bystander:nepb_el", "bystander:cal_biomass", "no_closed_form"]),
+            required_regimes: strs(&["value:joule", "value:hp25", "value:solar50+gas", "value:red1", "value:biomass", "value:biomass+dens_out", "value:gas+biomass_out_heats", "value:red1_40+solar60", "value:red2_50+hp4_50", "load_matching", "dhw_carrier_orders_closed", "error:none", "error:zero", "error:biomass+gas_noout", "error:biomass+joule_noout", "bystander:nepb_el", "bystander:cal_biomass", "no_closed_form"]),
             extra: serde_json::json!({}),
         },
     )
